@@ -7,6 +7,14 @@ x m in {1,2} (quick) / {1,2,3,4} (thorough) x four source container forms x two 
 every depth-2 pipeline op2(op1(header-only table)) of unary call forms and every binary call form fed with
 op1(header-only table) on either input.  Oracle: no exception; header as for non-empty input
 (or the documented header when it depends on data); data rows per the zero-row definition.
+
+Rendering accessors (look, lookall, lookstr, lookallstr, Table.look, repr, str, see, Table.see,
+_repr_html_) are enumerated over their whole option space: style in {grid, simple, minimal} given by
+argument and/or by petl.config.look_style, index_header by argument / config, truncate, width (argument /
+config), limit (default / 1 / None, config) x four header shapes (3 fields, 1 field, 1-character names,
+non-text names) x four container forms, and over every header-only VIEW op1(header-only table).
+Oracle: no exception; text equals the reference rendering of the header lines (refs/vis.py) and equals the
+rendering of the same table with one data row minus everything that belongs to the row.
 """
 import collections
 import itertools
@@ -20,6 +28,7 @@ import petl as etl
 
 from .. import catalogue as C
 from .. import env
+from ..refs import vis as V
 from ..refs import zero as Z
 from ..sources import freeze
 
@@ -35,7 +44,11 @@ RULE = ('program = catalogue/local call form, or pipeline op2(op1(.)) of two una
         'definition as a multiset (none; the other side\'s rows for outer joins/complements/antijoin/cat/stack/'
         'mergesort; one row for key-less simple aggregates; 0 or 1 rows for key-less multi-aggregates).  A state '
         'is non-trivial when it is a binary operator with exactly one header-only side, or a container form other '
-        'than the plain tuple table, or a pipeline that is applicable (runs on 2-row input)')
+        'than the plain tuple table, or a pipeline that is applicable (runs on 2-row input).  Rendering states = '
+        '(rendering function, options by argument, petl.config values, header shape, container form | first-stage '
+        'view); petl.config is set inside try/finally and restored; a rendering state is applicable when the same '
+        'call works on the table with one data row; oracle: no exception, text == reference header lines == '
+        'one-row rendering minus the row part')
 ASSUMPTIONS = [
     'header-only = a header row and zero data rows; a table without any row at all is outside the statement',
     'excluded: fromdicts without header= on empty input (no header can exist); valuecount (0/0); interval* '
@@ -43,6 +56,9 @@ ASSUMPTIONS = [
     'no-raise only (rows not compared): limits/stats/parsecounts/parsecounter (min or mean of nothing is not '
     'defined), fromxml (no header row survives the round trip); skip(1) must give an entirely empty table; merge with one non-empty side: header and row count only',
     'field arguments of every call form name fields that exist in the header',
+    'renderings: data cells of the one-row comparison table are one-digit ints (never wider than a field name); '
+    'calls that fail with data rows too (e.g. _repr_html_(truncate=) on non-text field names) are not applicable; '
+    'display()/displayall() need IPython and are represented by _repr_html_',
 ]
 
 FORMS = ('tuple', 'list', 'iter', 'wrap')
@@ -698,6 +714,277 @@ def check_pipe2(o1, o2, pos, ns, form, m=2):
 
 
 # ---------------------------------------------------------------------------------------------
+# rendering accessors: look / lookall / lookstr / lookallstr / see / repr / str / _repr_html_ under every
+# presentation style and option, given by argument and by petl.config
+# ---------------------------------------------------------------------------------------------
+
+VIS_HEADERS = OrderedDict([
+    ('w3', ('foo', 'bar', 'bz9')),
+    ('w1', ('foo',)),
+    ('k', ('k', 'v', 'x')),               # one-character names: every column is as narrow as it can be
+    ('nontext', (10, None, 'x y')),       # field names that are not text
+])
+STYLES = ('grid', 'simple', 'minimal')
+LOOK_FNS = ('look', 'lookall', 'lookstr', 'lookallstr', 'Table.look')
+VIS_FNS = LOOK_FNS + ('repr', 'str', 'see', 'Table.see', 'html')
+_CONFIG_KEYS = ('look_style', 'look_limit', 'look_index_header', 'look_vrepr', 'look_width', 'see_limit',
+                'see_index_header', 'see_vrepr', 'display_limit', 'display_index_header', 'display_vrepr')
+
+
+def vis_table(hname, n, form):
+    """Header + n rows of one-digit ints: no cell is rendered wider than its field name, so the header lines
+    of the n-row rendering are what the header-only rendering must consist of."""
+    hdr = VIS_HEADERS[hname]
+    t = (hdr,) + tuple(tuple((i + j) % 10 for j in range(len(hdr))) for i in range(n))
+    if form == 'tuple':
+        return t
+    if form == 'list':
+        return [list(r) for r in t]
+    if form == 'iter':
+        return IterTable(t)
+    if form == 'wrap':
+        return etl.wrap([list(r) for r in t])
+    raise KeyError(form)
+
+
+def vis_configs(fn, reduced=False):
+    """Every configuration of one rendering function: options given by argument (None = not given) and the
+    petl.config defaults they fall back to.  reduced: the style x route sub-space used for pipelines."""
+    out = []
+    if fn in LOOK_FNS:
+        limits = ('default',) if fn in ('lookall', 'lookallstr') else ('default', 1, None)
+        if reduced:
+            for st in STYLES:
+                out.append({'style': st, 'cfg_style': 'grid'})
+                out.append({'style': None, 'cfg_style': st})
+            return out
+        for st, cst, ih, cih, tr, wd, lim in itertools.product(
+                (None,) + STYLES, STYLES, (None, True), (False, True), (None, 2), (None, 7), limits):
+            out.append({'style': st, 'cfg_style': cst, 'ih': ih, 'cfg_ih': cih, 'truncate': tr, 'width': wd,
+                        'limit': lim})
+    elif fn in ('repr', 'str'):
+        if reduced:
+            return [{'cfg_style': st} for st in STYLES]
+        for cst, cih, cwd, clim in itertools.product(STYLES, (False, True), (None, 7), (5, 1)):
+            out.append({'cfg_style': cst, 'cfg_ih': cih, 'cfg_width': cwd, 'cfg_limit': clim})
+    elif fn in ('see', 'Table.see'):
+        if reduced:
+            return [{}]
+        for ih, cih, lim in itertools.product((None, True), (False, True), ('default', 1, None)):
+            out.append({'ih': ih, 'cfg_ih': cih, 'limit': lim})
+    elif fn == 'html':
+        if reduced:
+            return [{}]
+        for ih, cih, tr, lim in itertools.product((None, True), (False, True), (None, 2), ('default', 1, None)):
+            out.append({'ih': ih, 'cfg_ih': cih, 'truncate': tr, 'limit': lim})
+    return out
+
+
+def vis_render(fn, cfg, table):
+    """Call the real accessor under the configuration; petl.config is restored afterwards."""
+    saved = dict((k, getattr(etl.config, k)) for k in _CONFIG_KEYS)
+    try:
+        etl.config.look_style = cfg.get('cfg_style', 'grid')
+        for k in ('look_index_header', 'see_index_header', 'display_index_header'):
+            setattr(etl.config, k, cfg.get('cfg_ih', False))
+        etl.config.look_width = cfg.get('cfg_width')
+        etl.config.look_limit = cfg.get('cfg_limit', 5)
+        kw = {}
+        if cfg.get('ih') is not None:
+            kw['index_header'] = cfg['ih']
+        if cfg.get('limit', 'default') != 'default':
+            kw['limit'] = cfg['limit']
+        if fn in LOOK_FNS:
+            for k in ('style', 'truncate', 'width'):
+                if cfg.get(k) is not None:
+                    kw[k] = cfg[k]
+            if fn == 'Table.look':
+                return str(etl.wrap(table).look(**kw))
+            return str(getattr(etl, fn)(table, **kw))
+        if fn == 'repr':
+            return repr(etl.wrap(table))
+        if fn == 'str':
+            return str(etl.wrap(table))
+        if fn == 'see':
+            return str(etl.see(table, **kw))
+        if fn == 'Table.see':
+            return str(etl.wrap(table).see(**kw))
+        if fn == 'html':
+            if cfg.get('truncate') is not None:
+                kw['truncate'] = cfg['truncate']
+            return etl.wrap(table)._repr_html_(**kw)
+        raise KeyError(fn)
+    finally:
+        for k, v in saved.items():
+            setattr(etl.config, k, v)
+
+
+def vis_effective(fn, cfg):
+    style = cfg.get('style') or cfg.get('cfg_style', 'grid')
+    ih = cfg['ih'] if cfg.get('ih') is not None else cfg.get('cfg_ih', False)
+    width = cfg['width'] if cfg.get('width') is not None else cfg.get('cfg_width')
+    return style, bool(ih), cfg.get('truncate'), width
+
+
+def vis_expected(fn, cfg, hdr):
+    """Reference rendering of the header-only table (None: no reference, differential oracle only)."""
+    style, ih, truncate, width = vis_effective(fn, cfg)
+    if fn in LOOK_FNS or fn in ('repr', 'str'):
+        return V.look_text([hdr], style, repr, ih, truncate, width)
+    if fn in ('see', 'Table.see'):
+        return V.see_text([hdr], repr, ih)
+    return None
+
+
+def vis_header_part(fn, cfg, text):
+    """What remains of the rendering of a table WITH rows when everything belonging to a data row is removed."""
+    if fn == 'html':
+        a, b = text.index('<tbody>\n') + len('<tbody>\n'), text.index('</tbody>')
+        return text[:a] + text[b:]
+    if fn in ('see', 'Table.see'):
+        return ''.join(line[:line.index(': ') + 2] + '\n' for line in text.splitlines())
+    return V.header_lines_of(text, vis_effective(fn, cfg)[0])
+
+
+def vis_group(fn):
+    """One group per renderer: look, lookall, lookstr, lookallstr, Table.look, repr and str share Look."""
+    if fn in LOOK_FNS or fn in ('repr', 'str'):
+        return 'look (text rendering: look/lookall/lookstr/lookallstr/repr/str)'
+    return {'html': '_repr_html_'}.get(fn, 'see')
+
+
+def _safe(f):
+    try:
+        return ('ok', f())
+    except Exception as e:
+        return ('exc', type(e).__name__, re.sub(r' at 0x[0-9a-fA-F]+', '', str(e))[:160])
+
+
+_VIS_BASE = {}
+
+
+def check_vis(fn, cfg, table, hdr, full_table, what):
+    """-> problems for one rendering state (None: not applicable).  table: the header-only input;
+    full_table(): the same input with one data row (applicability + differential oracle)."""
+    f = None
+    if full_table is not None:
+        # with limit=1 a second row would add the overflow marker; one row never overflows
+        f = _safe(lambda: vis_render(fn, cfg, full_table()))
+        if f[0] == 'exc':
+            return None     # the call does not work for this header even with data: outside the statement
+    r = _safe(lambda: vis_render(fn, cfg, table))
+    if r[0] == 'exc':
+        return [('raises', 'no exception', r[1:], '%s raised %s on %s: %s' % (fn, r[1], what, r[2]))]
+    bad = []
+    text = r[1]
+    exp = vis_expected(fn, cfg, hdr)
+    if exp is not None and text != exp:
+        bad.append(('wrong rendering', exp, text,
+                    '%s of %s is not the header lines of the documented layout' % (fn, what)))
+    if f is not None and not bad:
+        want = vis_header_part(fn, cfg, f[1])
+        if text != want:
+            bad.append(('rendering differs from the non-empty one', want, text,
+                        '%s of %s is not the rendering of the same table with one data row minus the row lines'
+                        % (fn, what)))
+    return bad
+
+
+def vis_direct_state(fn, cfg, hname, form):
+    hdr = VIS_HEADERS[hname]
+    return check_vis(fn, cfg, vis_table(hname, 0, form), hdr, lambda: vis_table(hname, 1, form),
+                     'a header-only table (%s, %s form)' % (hname, form))
+
+
+def vis_pipe_state(fn, cfg, o1, form):
+    """Rendering of the header-only VIEW o1(header-only table); -> (applicable, problems)."""
+    ctx = _ctxdir() if 'ctx' in o1.tags else None
+    try:
+        try:
+            mid = o1.build([mk(o1.kinds[0], 0, form)], ctx=ctx)
+            rows = [tuple(r) for r in mid]
+        except Exception:
+            return False, []          # reported by the direct item of o1
+        if len(rows) != 1:
+            return False, []
+        bad = check_vis(fn, cfg, mid, rows[0], None, 'the header-only view %s(header-only table)' % o1.name)
+        if bad and bad[0][0] == 'raises' and _safe(lambda: vis_render(
+                fn, cfg, o1.build([mk(o1.kinds[0], 1, form)], ctx=ctx)))[0] == 'exc':
+            return False, []      # rendering this view fails with data rows too
+        return True, bad
+    finally:
+        if ctx:
+            shutil.rmtree(ctx, ignore_errors=True)
+
+
+_VIS_BAD = set()
+
+
+def vis_setup():
+    """(function, effective style) pairs whose direct case fails are not repeated over every pipeline."""
+    _VIS_BAD.clear()
+    for fn in VIS_FNS:
+        for cfg in vis_configs(fn, reduced=True):
+            try:
+                if vis_direct_state(fn, cfg, 'w3', 'tuple') or vis_direct_state(fn, cfg, 'w3', 'iter'):
+                    _VIS_BAD.add((fn, vis_effective(fn, cfg)[0]))
+            except Exception:
+                _VIS_BAD.add((fn, vis_effective(fn, cfg)[0]))
+
+
+def run_vis_item(item, acc):
+    kind, fn, tier = item
+    fn, _, part = fn.partition('/')
+    if kind == 'vis':
+        for cfg in vis_configs(fn):
+            if part and cfg['cfg_style'] != part:
+                continue
+            for hname in VIS_HEADERS:
+                for form in FORMS:
+                    bad = vis_direct_state(fn, cfg, hname, form)
+                    acc.transitions += 1
+                    if bad is None:
+                        acc.counters['renderings:not applicable (raises on a one-row table too)'] += 1
+                        continue
+                    acc.states += 1
+                    acc.transitions += 1
+                    acc.evals += 2
+                    acc.nontrivial += 1
+                    acc.counters['states:rendering'] += 1
+                    acc.outcome((fn, sorted(cfg.items(), key=repr), hname, tuple(b[0] for b in bad)))
+                    for sig, exp, obs, msg in bad:
+                        acc.violation('%s | %s' % (vis_group(fn), sig),
+                                      {'kind': 'vis', 'fn': fn, 'cfg': cfg, 'header': hname, 'form': form,
+                                       'sig': sig}, exp, obs, msg)
+        acc.sample({'rendering': fn, 'configurations': len(vis_configs(fn)), 'headers': list(VIS_HEADERS),
+                    'forms': list(FORMS)}, 1)
+        return
+    forms = ('tuple',) if tier == 'quick' else ('tuple', 'iter')
+    for cfg in vis_configs(fn, reduced=True):
+        if (fn, vis_effective(fn, cfg)[0]) in _VIS_BAD:
+            acc.counters['pipelines:skipped (rendering fails directly)'] += 1
+            continue
+        for o1 in stage1_ops():
+            if o1.name in _DIRECT_BAD:
+                continue
+            for form in forms:
+                applicable, bad = vis_pipe_state(fn, cfg, o1, form)
+                acc.transitions += 1
+                if not applicable:
+                    continue
+                acc.states += 1
+                acc.transitions += 1
+                acc.evals += 1
+                acc.nontrivial += 1
+                acc.counters['states:rendering of a header-only view'] += 1
+                acc.outcome((fn, sorted(cfg.items(), key=repr), o1.name, tuple(b[0] for b in bad)))
+                for sig, exp, obs, msg in bad:
+                    acc.violation('pipeline: %s over a header-only view | %s' % (vis_group(fn), sig),
+                                  {'kind': 'vispipe', 'fn': fn, 'cfg': cfg, 'op1': o1.name, 'form': form,
+                                   'sig': sig}, exp, obs, msg)
+
+
+# ---------------------------------------------------------------------------------------------
 # runner interface
 # ---------------------------------------------------------------------------------------------
 
@@ -716,6 +1003,7 @@ def setup(tier, seed):
                     break
         except Exception:
             _DIRECT_BAD.add(o.name)
+    vis_setup()
 
 
 def ms(tier):
@@ -728,11 +1016,16 @@ def items(tier, seed):
     s1 = [o for o in stage1_ops() if o.name not in _DIRECT_BAD]
     out += [('pipe', o.name, tier) for o in s1]
     out += [('pipe2', o.name, tier) for o in binary_ops() if o.name not in _DIRECT_BAD]
+    for fn in VIS_FNS:      # the large configuration spaces are split by configured style (better packing)
+        out += [('vis', '%s/%s' % (fn, st), tier) for st in STYLES] if fn in LOOK_FNS else [('vis', fn, tier)]
+    out += [('vispipe', fn, tier) for fn in VIS_FNS]
     k = seed % len(out)
     return out[k:] + out[:k]
 
 
 def cost(item):
+    if item[0] in ('vis', 'vispipe'):
+        return 150 if item[1].split('/')[0] in LOOK_FNS else 40
     o = by_name(item[1])
     c = {'pipe': 30, 'pipe2': 60}.get(item[0], len(o.kinds) ** 2)
     if o.tags & {'ctx', 'io'}:
@@ -745,7 +1038,11 @@ def bounds(tier, seed):
             'local_forms': len(LOCAL), 'pipeline_first_stages': len(stage1_ops()),
             'pipeline_second_stages': len(unary_ops()), 'rows_on_non_empty_side': list(ms(tier)),
             'container_forms': list(FORMS), 'passes': 2, 'excluded': EXCLUDED,
-            'stages_not_pipelined_because_direct_case_fails': sorted(_DIRECT_BAD)}
+            'stages_not_pipelined_because_direct_case_fails': sorted(_DIRECT_BAD),
+            'rendering_functions': list(VIS_FNS), 'rendering_styles': list(STYLES),
+            'rendering_configurations': dict((fn, len(vis_configs(fn))) for fn in VIS_FNS),
+            'rendering_headers': dict((k, list(map(str, v))) for k, v in VIS_HEADERS.items()),
+            'renderings_not_pipelined_because_direct_case_fails': sorted(map(str, _VIS_BAD))}
 
 
 def assignments(k, m):
@@ -754,6 +1051,8 @@ def assignments(k, m):
 
 def run_item(item, acc):
     kind, name, tier = item
+    if kind in ('vis', 'vispipe'):
+        return run_vis_item(item, acc)
     op = by_name(name)
     if kind == 'op':
         seen = set()
@@ -833,7 +1132,11 @@ def run_item(item, acc):
 
 
 def replay(case):
-    if case['kind'] == 'op':
+    if case['kind'] == 'vis':
+        bad = vis_direct_state(case['fn'], case['cfg'], case['header'], case['form'])
+    elif case['kind'] == 'vispipe':
+        bad = vis_pipe_state(case['fn'], case['cfg'], by_name(case['op1']), case['form'])[1]
+    elif case['kind'] == 'op':
         bad = check_state(by_name(case['op']), tuple(case['ns']), case['form'], case['m'])
     elif case['kind'] == 'pipe2':
         bad = check_pipe2(by_name(case['op1']), by_name(case['op2']), case['pos'], tuple(case['ns']),
@@ -854,13 +1157,15 @@ def vacuity(cov, tier):
         out.append('fewer direct states than call forms')
     if c.get('states:pipeline', 0) < 1000:
         out.append('fewer than 1000 applicable pipelines')
+    if c.get('states:rendering', 0) < 1000:
+        out.append('fewer than 1000 rendering states')
     return out
 
 
 def _cls_opbase(group, case, params):
     """Known-finding classifier: the failing operator (second stage for pipelines) is one of params['ops']
     and the failure signature is params['sig'] (default 'raises')."""
-    name = case.get('op') or case.get('op2')
+    name = case.get('op') or case.get('op2') or case.get('fn') or ''
     return base(name) in params.get('ops', []) and case.get('sig') == params.get('sig', 'raises')
 
 
